@@ -292,6 +292,7 @@ func checkC13(p *Prog, r *Report) {
 	}
 
 	ruleMacroBindAll(p, ma, r, "R-C13-BINDALL")
+	ruleC13LazyDefaults(p, ma, r)
 
 	r.Begin("R-C13-POS", "the i-th argument is bound to the i-th parameter name, after (so overriding) the defaults", 1)
 	update := p.Method("Context", "Update")
@@ -342,6 +343,22 @@ func checkC13(p *Prog, r *Report) {
 					r.Bad(key, p.InstrPos(in), "parameter name index %s and argument index %s differ: arguments are bound to the wrong parameters", p.VN(kia.Index), p.VN(vidx))
 				} else {
 					r.OK(key, p.InstrPos(in), "name and value use the same position index")
+					// the value is bound as it arrived (the *Value with its safe mark), not stripped through Interface():
+					// a macro's (already escaped) result handed to another macro must not be escaped a second time
+					stripped := false
+					if mi, isMI := mu.Value.(*ssa.MakeInterface); isMI {
+						if c, isCall := mi.X.(*ssa.Call); isCall && c.Common().StaticCallee() != nil && c.Common().StaticCallee().Name() == "Interface" {
+							stripped = true
+						}
+					}
+					if c, isCall := mu.Value.(*ssa.Call); isCall && c.Common().StaticCallee() != nil && c.Common().StaticCallee().Name() == "Interface" {
+						stripped = true
+					}
+					if stripped {
+						r.Bad(key+":as-value", p.InstrPos(in), "the argument is bound as Interface() of the *Value it arrived in: its safe mark is lost, so {{ outer(inner(x)) }} escapes the inner macro's output again while a default or a with/set binding of the same value keeps the mark")
+					} else {
+						r.OK(key+":as-value", p.InstrPos(in), "the argument is bound as the *Value it arrived in")
+					}
 				}
 				// defaults first
 				dom := false
@@ -641,4 +658,88 @@ func loopBoundIsLenOf(p *Prog, hdr *ssa.BasicBlock, sl ssa.Value) bool {
 		}
 	}
 	return false
+}
+
+// ruleC13LazyDefaults: a parameter's default expression is evaluated only when the call does not supply that parameter
+// ("omitted parameters bound to their default expression"): the evaluation of a default sits behind a comparison of the
+// parameter's position with the number of arguments. An eager default fails the call (or recurses) for nothing.
+func ruleC13LazyDefaults(p *Prog, ma *macroAnchors, r *Report) {
+	r.Begin("R-C13-LAZYDEF", "a default expression is evaluated only for a parameter the call omits: its Evaluate is guarded by position >= number of arguments", 1)
+	n := 0
+	for _, body := range ma.bodies {
+		for _, fn := range clusterOf(p, body, 2) {
+			for _, b := range fn.Blocks {
+				for _, in := range b.Instrs {
+					c, ok := in.(*ssa.Call)
+					if !ok || !c.Common().IsInvoke() || c.Common().Method.Name() != "Evaluate" {
+						continue
+					}
+					// receiver: an element of tagMacroNode.args
+					recv := c.Common().Value
+					isDefault := false
+					if ex, isEx := recv.(*ssa.Extract); isEx {
+						if lk, isLk := ex.Tuple.(*ssa.Lookup); isLk && loadsField(lk.X, "tagMacroNode", "args") {
+							isDefault = true
+						}
+						if nx, isNx := ex.Tuple.(*ssa.Next); isNx {
+							if rg, isRg := nx.Iter.(*ssa.Range); isRg && loadsField(rg.X, "tagMacroNode", "args") {
+								isDefault = true
+							}
+						}
+					}
+					if lk, isLk := recv.(*ssa.Lookup); isLk && loadsField(lk.X, "tagMacroNode", "args") {
+						isDefault = true
+					}
+					if !isDefault {
+						continue
+					}
+					n++
+					key := p.FuncName(fn) + ":default"
+					g := Guarded(in, func(cond ssa.Value, pol bool) bool {
+						bo, ok := cond.(*ssa.BinOp)
+						if !ok {
+							return false
+						}
+						lx, ly := lenOperand(bo.X), lenOperand(bo.Y)
+						argsX := lx != nil && isVariadicParamAny(lx)
+						argsY := ly != nil && isVariadicParamAny(ly)
+						switch {
+						case argsY && bo.Op == token.LSS && !pol: // !(i < len(args))
+							return true
+						case argsY && bo.Op == token.GEQ && pol: // i >= len(args)
+							return true
+						case argsX && bo.Op == token.GTR && !pol: // !(len(args) > i)
+							return true
+						case argsX && bo.Op == token.LEQ && pol: // len(args) <= i
+							return true
+						}
+						return false
+					})
+					if g {
+						r.OK(key, p.InstrPos(in), "evaluated only when the parameter's position is not covered by the call's arguments")
+					} else {
+						r.Bad(key, p.InstrPos(in), "a default expression is evaluated although the call may supply the parameter: {% macro m(a=lookup()) %} … {{ m(1) }} fails when lookup() fails, and a default that calls the macro itself recurses to the depth limit")
+					}
+				}
+			}
+		}
+	}
+	if n == 0 {
+		r.Bad("none", "-", "no evaluation of a default expression (an element of tagMacroNode.args) found: omitted parameters are not bound to their defaults")
+	}
+}
+
+// isVariadicParamAny: v is (a load of) a variadic/slice parameter of *Value elements of its function.
+func isVariadicParamAny(v ssa.Value) bool {
+	if u, ok := v.(*ssa.UnOp); ok {
+		if sv := localLoadValue(u); sv != nil {
+			v = sv
+		}
+	}
+	pa, ok := v.(*ssa.Parameter)
+	if !ok {
+		return false
+	}
+	_, isSlice := pa.Type().Underlying().(*types.Slice)
+	return isSlice
 }
